@@ -113,6 +113,12 @@ func runC18(c *Ctx) {
 			}
 		}
 	}
+	// or the library maximum of the candidate list: slices.Max(versionIntersect)
+	if call, isCall := selected.(*ssa.Call); isCall && !okMax && strings.HasPrefix(calleeName(&call.Call), "slices.Max") && len(call.Call.Args) == 1 && appendCand != nil {
+		if samePhiFamily(call.Call.Args[0], appendCand.Common().Args[0]) || call.Call.Args[0] == appendCand.Value() || samePhiFamily(call.Call.Args[0], appendCand.Value()) {
+			okMax = true
+		}
+	}
 	c.Check(appendCand != nil || fusedUnderLookup, "candidate-offered-by-both", key, fn.Pos(), "a proposed version becomes a candidate only if the responder's map contains it", "the candidate set is not built under a successful lookup of the proposed version in the responder's own version map")
 	c.Check(okMax, "select-highest", key, accept.Pos(), "the selected version is replaced exactly when a candidate is greater than the current one (running maximum)", "the selected version is not the maximum of the common versions")
 	// (3) guards
@@ -214,6 +220,33 @@ func runC18(c *Ctx) {
 	for _, ef := range edgeFacts(sortFn) {
 		if ef.Fact == "T:next(range(p0.config.ProtocolVersionMap))#0" {
 			okKeys = true
+		}
+	}
+	if !(okSort && okKeys) {
+		// slices.Sorted(maps.Keys(own map)) handed to a refusal
+		for _, ci := range allCalls(fn) {
+			if !strings.HasPrefix(calleeName(ci.Common()), "slices.Sorted") || len(ci.Common().Args) != 1 || ci.Value() == nil {
+				continue
+			}
+			keys, isCall := ci.Common().Args[0].(*ssa.Call)
+			if !isCall || !strings.HasPrefix(calleeName(&keys.Call), "maps.Keys") || len(keys.Call.Args) != 1 {
+				continue
+			}
+			if t := trace(keys.Call.Args[0]); !strings.HasPrefix(t, "ProtocolVersionMap<config<") {
+				continue
+			}
+			// the sorted list is an element of a refusal's reason
+			for _, in := range fnInstrs(fn) {
+				if st, ok := in.(*ssa.Store); ok {
+					v := st.Val
+					if mi, isMI := v.(*ssa.MakeInterface); isMI {
+						v = mi.X
+					}
+					if v == ci.Value() {
+						okSort, okKeys = true, true
+					}
+				}
+			}
 		}
 	}
 	c.Check(okSort && okKeys, "refusal-sorted-own-versions", key, fn.Pos(), "the mismatch refusal lists the responder's own versions, sorted ascending before the message is built", "the version-mismatch refusal is not the sorted key list of the responder's version map")
